@@ -94,8 +94,21 @@ def r30_cli_flow(ctx):
               main.loc(), "all four dispatch targets are called",
               "main no longer dispatches to %s" % sorted(missing), P)
     for t in tries:
-        printed_in_else = any(isinstance(x, ast.Call) and U(x.func) == "print"
-                              for st in t.orelse for x in ast.walk(st))
+        def prints(stmts):
+            return any(isinstance(x, ast.Call) and U(x.func) == "print"
+                       for st in stmts for x in ast.walk(st))
+
+        def handler_leaves(h):
+            last = h.body[-1] if h.body else None
+            return isinstance(last, (ast.Raise, ast.Return)) or (
+                isinstance(last, ast.Expr) and isinstance(
+                    last.value, ast.Call) and U(last.value.func) in (
+                        "sys.exit", "exit", "os._exit"))
+        from ..flow import block_of
+        _o, _f, blk = block_of(t)
+        after = blk[blk.index(t) + 1:] if blk and t in blk else []
+        printed_in_else = prints(t.orelse) or (
+            prints(after) and all(handler_leaves(h) for h in t.handlers))
         rep.check(printed_in_else, rule, ctx.fkey(main, None, "print-else"),
                   main.loc(t), "the result is printed in the else branch",
                   "main does not print the result in the try's else "
